@@ -16,6 +16,9 @@ H2Agreed(p) == p.alpn = "h2" \/ p.assume_http2
 \* p.client_ca (optional field): "proper" (default) or a PEM that yields no trust anchor ("empty", "key_only"): such a server
 \* cannot authenticate anybody, so nobody is served (tonic refuses the configuration)
 CaUsable(p) == ("client_ca" \notin DOMAIN p) \/ p.client_ca = "proper"
+\* p.origin (optional field): an origin override ("good_before", "good_after", "bad_before", "bad_after": a host that matches / does not
+\* match the certificate, set before / after the TLS configuration).  It names the :authority of requests; the name the certificate
+\* is checked against stays the configured domain or the URI host, so `origin` occurs in none of the predicates below.
 ClientAccepted(p) == \/ p.client_auth = "none"
                      \/ (CaUsable(p) /\ p.client_auth = "required" /\ p.identity = "valid")
                      \/ (CaUsable(p) /\ p.client_auth = "optional" /\ p.identity \in {"none", "valid"})
